@@ -3,7 +3,8 @@ EXTENDS WasmAbi, Json
 MCStructDefs == [S2 |-> <<P("u8"), P("u16")>>, S3 |-> <<P("u32"), P("u8"), P("u16")>>, SW |-> <<P("u8"), P("i64")>>]
 FieldTypes == {P(p) : p \in Prims} \cup {EnumT, K("opq"),
                SliceT("u8", "imm"), StructT("S2"), StructT("S3"), StructT("SW"),
-               OptT("dipl", P("u8")), OptT("dipl", P("u32")), OptT("dipl", StructT("S2"))}
+               OptT("dipl", P("u8")), OptT("dipl", P("u32")), OptT("dipl", P("bool")), OptT("dipl", P("i64")), OptT("dipl", P("f64")),
+               OptT("dipl", StructT("S2"))}
 CONSTANT MaxFields
 VARIABLES fields, stage
 vars == <<fields, stage>>
